@@ -158,6 +158,11 @@ def cells(tier):
                    ('roStorySend', {}), ('EAStorySwap', {'k': 2}), ('roStoryInsert', {}), ('roStoryAppend', {}),
                    ('EAStoryInsert', {'tk': 'blank'}), ('EAStoryDelete', {'k': 2}), ('EAStoryReplace', {})):
         out.append(mk(op, 3, gap=None, rname='any', timeout=T, extra={'prehist': True}, **kw))
+    # a running order without any story
+    for op, kw in (('roStoryAppend', {'k': 1}), ('roStoryAppend', {'k': 2}), ('EAStoryInsert', {'tk': 'blank', 'k': 2}),
+                   ('EAStoryInsert', {'tk': 'absent'})):
+        out.append(mk(op, 0, gap=None, rname='no-stories', timeout=T, **kw))
+        out.append(mk(op, 0, gap=None, lead=4, trail=1, rname='no-stories', timeout=T, **kw))
     # the smallest shapes: a single story; every story of the running order named as a source
     for op, kw in (('roStoryMove', {'tk': 'blank'}), ('roStoryMove', {'tk': 'absent'}), ('EAStoryMove', {'tk': 'blank'}),
                    ('EAStoryMove', {'tk': 'absent'}), ('roStoryDelete', {}), ('EAStoryDelete', {}), ('roStoryReplace', {}),
